@@ -109,12 +109,16 @@ func (e CBC) Decrypt(key interface{}, ciphertextEl *etree.Element) ([]byte, erro
 		return nil, err
 	}
 
-	if len(ciphertext) < block.BlockSize() {
+	blockSize := block.BlockSize()
+	if len(ciphertext) < blockSize {
 		return nil, errors.New("ciphertext too short")
 	}
+	if len(ciphertext)%blockSize != 0 {
+		return nil, errors.New("ciphertext is not a multiple of the block size")
+	}
 
-	iv := ciphertext[:aes.BlockSize]
-	ciphertext = ciphertext[aes.BlockSize:]
+	iv := ciphertext[:blockSize]
+	ciphertext = ciphertext[blockSize:]
 
 	mode := cipher.NewCBCDecrypter(block, iv)
 	plaintext := make([]byte, len(ciphertext))
